@@ -23,6 +23,25 @@ type c08evalSite struct {
 	script string
 	keys   []string
 	argv   []string
+	argvV  []ssa.Value
+}
+
+// c08findEval locates, by role, the function of lib/limit that evaluates a
+// script on a store held in a field of the named limiter type (the function
+// may be the exported entry point or any helper it was moved to).
+func c08findEval(p *core.Prog, typ string) (*ssa.Function, string) {
+	var found []*ssa.Function
+	for _, f := range p.PkgFuncs(c08pkg) {
+		for _, c := range c12methodCalls(f, "(*"+c12redisPkg+".Redis).EvalCtx") {
+			if strings.HasPrefix(core.FieldAddrNameOfLoad(core.Forward(c.Call.Args[0])), typ+".") {
+				found = append(found, f)
+			}
+		}
+	}
+	if len(found) != 1 {
+		return nil, fmt.Sprintf("%d EvalCtx calls on a store field of %s, expected one", len(found), typ)
+	}
+	return found[0], ""
 }
 
 func c08eval(fn *ssa.Function, w *c12fn) (*c08evalSite, string) {
@@ -48,8 +67,131 @@ func c08eval(fn *ssa.Function, w *c12fn) (*c08evalSite, string) {
 			return nil, "ARGV is not a fixed-size slice literal"
 		}
 		es.argv = append(es.argv, w.shape(lf.v, nil))
+		es.argvV = append(es.argvV, lf.v)
 	}
 	return es, ""
+}
+
+// c08path is one way a value is produced: the value, the instruction that
+// ends that way (a return of the helper computing it, or the jump into the φ
+// merging it) and the function holding it.
+type c08path struct {
+	v    ssa.Value
+	site ssa.Instruction
+	fn   *ssa.Function
+	edge *core.Edge // the φ edge this way comes in by (nil for returns / straight-line values)
+}
+
+// c08valuePaths looks through one in-package helper call and through φ-nodes
+// (an inlined helper, or `x := a; if c { x = b }`).
+func c08valuePaths(v ssa.Value, d int) []c08path {
+	v = core.Strip(v)
+	switch x := v.(type) {
+	case *ssa.Call:
+		if g := x.Call.StaticCallee(); g != nil && g.Blocks != nil && g.Pkg == x.Parent().Pkg && d < 2 {
+			var out []c08path
+			for _, ret := range core.Returns(g) {
+				if len(ret.Results) == 1 {
+					for _, pp := range c08valuePaths(core.Result(ret, 0), d+1) {
+						if pp.fn != g || pp.site == nil {
+							pp = c08path{v: pp.v, site: ret, fn: g}
+						}
+						out = append(out, pp)
+					}
+				}
+			}
+			if len(out) > 0 {
+				return out
+			}
+		}
+	case *ssa.Phi:
+		if d < 4 {
+			var out []c08path
+			for i, e := range x.Edges {
+				pred := x.Block().Preds[i]
+				sub := c08valuePaths(e, d+1)
+				if len(sub) == 1 && sub[0].site == nil {
+					sub[0].site = pred.Instrs[len(pred.Instrs)-1]
+					sub[0].edge = &core.Edge{From: pred, To: x.Block()}
+					sub[0].fn = x.Parent()
+				}
+				out = append(out, sub...)
+			}
+			return out
+		}
+	}
+	if in, ok := v.(ssa.Instruction); ok {
+		return []c08path{{v: v, fn: in.Parent()}}
+	}
+	return []c08path{{v: v}}
+}
+
+// c08holdsAny lists the edges on which at least one of the atoms is
+// established, including the true edge of `if φ` where φ merges the
+// short-circuit evaluation of a disjunction of the atoms (tagless switch case
+// `a || b`: φ(true from the edge where a held, b)).
+func c08holdsAny(f *ssa.Function, atoms ...core.Atom) []core.Edge {
+	var holds []core.Edge
+	in := map[core.Edge]bool{}
+	add := func(e core.Edge) {
+		if !in[e] {
+			in[e] = true
+			holds = append(holds, e)
+		}
+	}
+	for _, a := range atoms {
+		h, _ := core.EdgesOf(f, a)
+		for _, e := range h {
+			add(e)
+		}
+	}
+	for changed := true; changed; {
+		changed = false
+		for _, b := range f.Blocks {
+			if len(b.Instrs) == 0 || len(b.Succs) != 2 {
+				continue
+			}
+			iff, ok := b.Instrs[len(b.Instrs)-1].(*ssa.If)
+			if !ok {
+				continue
+			}
+			phi, ok := iff.Cond.(*ssa.Phi)
+			if !ok || phi.Block() != b || in[core.Edge{From: b, To: b.Succs[0]}] {
+				continue
+			}
+			all, any := true, false
+			for i, e := range phi.Edges {
+				if c, isC := e.(*ssa.Const); isC && c.Value != nil {
+					switch c.Value.String() {
+					case "false":
+						continue
+					case "true":
+						if in[core.Edge{From: b.Preds[i], To: b}] {
+							any = true
+							continue
+						}
+					}
+					all = false
+					continue
+				}
+				m := false
+				for _, a := range atoms {
+					if mm, pos := a(e); mm && pos {
+						m = true
+					}
+				}
+				if !m {
+					all = false
+				}
+				any = any || m
+			}
+			if all && any {
+				add(core.Edge{From: b, To: b.Succs[0]})
+				changed = true
+			}
+		}
+	}
+	return holds
 }
 
 func c08(r *core.Run) {
@@ -58,11 +200,34 @@ func c08(r *core.Run) {
 	r.NotDecided = "admission counts over time and call histories, Redis' TTL behaviour, atomicity of script evaluation, outage patterns; Lua semantics beyond the parsed subset (numbers vs strings coercion by tonumber is trusted)."
 	r.Trusted = append(r.Trusted, "a 300-line parser for the Lua subset used by the two scripts (local, assignment, if/elseif/else, calls, arithmetic, comparison, return); unknown syntax → unresolved")
 
+	// anchors: exported API by name, unexported helpers by role
 	take := p.Func(c08pkg, "PeriodLimit", "TakeCtx")
-	calc := p.Func(c08pkg, "PeriodLimit", "calcExpireSeconds")
-	reserve := p.Func(c08pkg, "TokenLimiter", "reserveN")
-	startMon := p.Func(c08pkg, "TokenLimiter", "startMonitor")
+	takeEval, _ := c08findEval(p, "PeriodLimit") // the function that evaluates the period script
+	reserve, _ := c08findEval(p, "TokenLimiter") // the function that evaluates the token script (reserveN)
 	newTok := p.Func(c08pkg, "", "NewTokenLimiter")
+	isAliveAddr0 := func(v ssa.Value) bool { return core.FieldAddrName(v) == "TokenLimiter.redisAlive" }
+	storesAlive := func(f *ssa.Function, val int64) []ssa.Instruction {
+		return core.Instrs(f, func(in ssa.Instruction) bool {
+			c := core.AsCall(in)
+			if c == nil || core.CalleeName(c) != "sync/atomic.StoreUint32" || !isAliveAddr0(c.Common().Args[0]) {
+				return false
+			}
+			k, ok := core.ConstInt(c.Common().Args[1])
+			return ok && k == val
+		})
+	}
+	var startMon *ssa.Function             // the function that marks Redis down (startMonitor)
+	monitorFns := map[*ssa.Function]bool{} // the functions that mark Redis alive again (waitForRedis) and their parents
+	for _, f := range p.PkgFuncs(c08pkg) {
+		if len(storesAlive(f, 0)) > 0 && startMon == nil {
+			startMon = f
+		}
+		if len(storesAlive(f, 1)) > 0 {
+			for g := f; g != nil; g = g.Parent() {
+				monitorFns[g] = true
+			}
+		}
+	}
 
 	// ---------------- D1: Go side of the period limiter ----------------
 	r.Check("D1/K6/period-code-mapping", "TakeCtx maps the script's replies 0→OverQuota, 1→Allowed, 2→HitQuota (under err == nil and a successful int64 assertion of the reply); every other path returns Unknown with a non-nil error", func(o *core.O) {
@@ -141,24 +306,68 @@ func c08(r *core.Run) {
 	})
 
 	var periodSite, tokenSite *c08evalSite
-	r.Check("D1/K8/period-eval-arguments", "TakeCtx evaluates the periodScript constant with KEYS = [pl.keyPrefix + key] on pl.limitStore with its ctx, and ARGV = two decimal strings: Itoa(pl.quota) at the position the script reads as its limit and Itoa(pl.calcExpireSeconds()) at the position it reads as its window", func(o *core.O) {
-		if !o.Need(take != nil, "PeriodLimit.TakeCtx") {
+	// normal form of the expiry: P = period, U = time.Now().Unix(), Z = zone offset of the same instant
+	isNow := func(v ssa.Value) bool {
+		c, ok := core.Strip(v).(*ssa.Call)
+		return ok && core.CalleeName(c) == "time.Now"
+	}
+	expAlg := &core.Alg{Name: func(v ssa.Value) string {
+		if core.IsFieldLoad(v, "PeriodLimit.period") {
+			return "P"
+		}
+		if c, ok := v.(*ssa.Call); ok && core.CalleeName(c) == "(time.Time).Unix" && isNow(core.Forward(c.Call.Args[0])) {
+			return "U"
+		}
+		if e, ok := v.(*ssa.Extract); ok && e.Index == 1 {
+			if c, ok := e.Tuple.(*ssa.Call); ok && core.CalleeName(c) == "(time.Time).Zone" && isNow(core.Forward(c.Call.Args[0])) {
+				return "Z"
+			}
+		}
+		return ""
+	}}
+	aligned, plain := core.ParsePoly("P - mod(U+Z, P)"), core.ParsePoly("P")
+	itoaArg := func(v ssa.Value) ssa.Value {
+		if c, ok := core.Strip(v).(*ssa.Call); ok && core.CalleeName(c) == "strconv.Itoa" {
+			return c.Call.Args[0]
+		}
+		return nil
+	}
+	// the expiry expression, by role: the decimal ARGV element of the period evaluation that is not the quota
+	expireExpr := func() (ssa.Value, string) {
+		if takeEval == nil {
+			return nil, "no function evaluates a script on a store field of PeriodLimit"
+		}
+		es, msg := c08eval(takeEval, newC12fn(takeEval))
+		if es == nil {
+			return nil, msg
+		}
+		var cands []ssa.Value
+		for _, v := range es.argvV {
+			if e := itoaArg(v); e != nil && !core.IsFieldLoad(e, "PeriodLimit.quota") {
+				cands = append(cands, e)
+			}
+		}
+		if len(cands) != 1 {
+			return nil, fmt.Sprintf("%d ARGV elements of the form Itoa(x) with x other than the quota, expected exactly the expiry", len(cands))
+		}
+		return cands[0], ""
+	}
+	r.Check("D1/K8/period-eval-arguments", "the period script is evaluated with KEYS = [keyPrefix + key] on the limiter's store with the caller's ctx, and ARGV = two decimal strings: Itoa(quota) at the position the script reads as its limit and Itoa(expiry seconds) at the position it reads as its window", func(o *core.O) {
+		if !o.Need(takeEval != nil, "the function evaluating a script on a store field of PeriodLimit") {
 			return
 		}
-		w := newC12fn(take)
-		es, msg := c08eval(take, w)
+		r.Fn(core.FuncName(takeEval))
+		w := newC12fn(takeEval)
+		es, msg := c08eval(takeEval, w)
 		if es == nil {
-			o.Unres("TakeCtx: %s", msg)
+			o.Unres("%s: %s", core.FuncName(takeEval), msg)
 			return
 		}
 		periodSite = es
 		o.Site(1)
 		where := p.InstrPos(es.call)
-		if sc, ok := p.Pkg(c08pkg).Members["periodScript"].(*ssa.NamedConst); !ok || constant.StringVal(sc.Value.Value) != es.script {
-			o.Fail(where, "TakeCtx does not evaluate the periodScript constant")
-		}
 		if sh := w.shape(es.call.Call.Args[0], nil); sh != "p0.PeriodLimit.limitStore" {
-			o.Fail(where, "the script runs on %s, not on pl.limitStore", sh)
+			o.Fail(where, "the script runs on %s, not on the receiver's limitStore", sh)
 		}
 		if w.paramIndex(es.call.Call.Args[1]) != 1 {
 			o.Fail(where, "the caller's ctx is not passed on")
@@ -168,78 +377,96 @@ func c08(r *core.Run) {
 		}
 		roles, msg := c08periodRoles(es.script)
 		if roles == nil {
-			o.Unres("periodScript: %s", msg)
+			o.Unres("period script: %s", msg)
 			return
 		}
 		if len(es.argv) != 2 {
 			o.Fail(where, "ARGV has %d elements, the script reads 2", len(es.argv))
 			return
 		}
-		got := map[string]string{"limit": "", "window": ""}
-		for role, idx := range roles {
-			if idx >= 1 && idx <= len(es.argv) {
-				got[role] = es.argv[idx-1]
+		li, wi := roles["limit"], roles["window"]
+		if li < 1 || li > 2 || es.argv[li-1] != "strconv.Itoa(p0.PeriodLimit.quota)" {
+			o.Fail(where, "the script's limit (ARGV[%d]) is not fed with Itoa(quota): quota and window swapped?", li)
+		}
+		if wi < 1 || wi > 2 || itoaArg(es.argvV[wi-1]) == nil {
+			o.Fail(where, "the script's window (ARGV[%d]) is not fed with Itoa(expiry seconds)", wi)
+			return
+		}
+		for _, pa := range c08valuePaths(itoaArg(es.argvV[wi-1]), 0) {
+			if got := expAlg.Norm(pa.v); !got.Equal(aligned) && !got.Equal(plain) {
+				o.Fail(where, "the script's window (ARGV[%d]) is fed with %s, expected the expiry P or P - mod(U+Z, P) (P = period)", wi, got)
 			}
-		}
-		if got["limit"] != "strconv.Itoa(p0.PeriodLimit.quota)" {
-			o.Fail(where, "the script's limit (ARGV[%d]) is fed with %q, expected Itoa(pl.quota): quota and window swapped?", roles["limit"], got["limit"])
-		}
-		if got["window"] != "strconv.Itoa((*"+c08pkg+".PeriodLimit).calcExpireSeconds(p0))" {
-			o.Fail(where, "the script's window (ARGV[%d]) is fed with %q, expected Itoa(pl.calcExpireSeconds())", roles["window"], got["window"])
 		}
 	})
 
-	r.Check("D1/K7/period-expire-seconds", "calcExpireSeconds returns period − (now.Unix() + zoneOffset) mod period exactly on the paths where pl.align holds, and period otherwise", func(o *core.O) {
-		if !o.Need(calc != nil, "PeriodLimit.calcExpireSeconds") {
+	r.Check("D1/K7/period-expire-seconds", "the expiry handed to the script is period − (now.Unix() + zoneOffset) mod period exactly on the paths where align holds, and period otherwise (whether computed in a helper or in line)", func(o *core.O) {
+		e, msg := expireExpr()
+		if e == nil {
+			o.Unres("expiry expression: %s", msg)
 			return
 		}
-		f := calc
-		r.Fn(core.FuncName(f))
-		isNow := func(v ssa.Value) bool {
-			c, ok := core.Strip(v).(*ssa.Call)
-			return ok && core.CalleeName(c) == "time.Now"
-		}
-		a := &core.Alg{Name: func(v ssa.Value) string {
-			if core.IsFieldLoad(v, "PeriodLimit.period") {
-				return "P"
+		paths := c08valuePaths(e, 0)
+		alignAtom := core.BoolVal(core.FieldLoad("PeriodLimit.align"))
+		nAligned, nPlain := 0, 0
+		for _, pa := range paths {
+			if pa.fn == nil {
+				o.Unres("expiry expression %s not understood", core.Describe(pa.v))
+				return
 			}
-			if c, ok := v.(*ssa.Call); ok && core.CalleeName(c) == "(time.Time).Unix" && isNow(core.Forward(c.Call.Args[0])) {
-				return "U"
+			r.Fn(core.FuncName(pa.fn))
+			holds, fails := core.EdgesOf(pa.fn, alignAtom)
+			o.Site(len(holds) + len(fails))
+			got := expAlg.Norm(pa.v)
+			where := p.Pos(pa.fn.Pos())
+			from := func(es []core.Edge) bool {
+				if pa.site == nil {
+					return true // straight-line value: produced whatever align says
+				}
+				if pa.edge != nil {
+					for _, ed := range es {
+						if ed == *pa.edge {
+							return true
+						}
+					}
+				}
+				return core.ReachableFromEdges(es, core.Is(pa.site), nil) != nil
 			}
-			if e, ok := v.(*ssa.Extract); ok && e.Index == 1 {
-				if c, ok := e.Tuple.(*ssa.Call); ok && core.CalleeName(c) == "(time.Time).Zone" && isNow(core.Forward(c.Call.Args[0])) {
-					return "Z"
+			if pa.site != nil {
+				where = p.InstrPos(pa.site)
+			}
+			fromAlign, fromPlain := from(holds), from(fails)
+			if len(holds) == 0 {
+				fromAlign, fromPlain = true, true
+			}
+			if fromAlign {
+				nAligned++
+				if !got.Equal(aligned) {
+					o.Fail(where, "with align the expiry is %s, expected P - mod(U+Z, P) (P = period, U = now.Unix(), Z = zone offset): windows would not end on period boundaries", got)
 				}
 			}
-			return ""
-		}}
-		aligned, plain := core.ParsePoly("P - mod(U+Z, P)"), core.ParsePoly("P")
-		holds, fails := core.EdgesOf(f, core.BoolVal(core.FieldLoad("PeriodLimit.align")))
-		o.Site(len(holds) + len(fails))
-		if len(holds) == 0 {
-			o.Fail(p.Pos(f.Pos()), "calcExpireSeconds does not branch on pl.align")
-			return
+			if fromPlain {
+				nPlain++
+				if !got.Equal(plain) {
+					o.Fail(where, "without align the expiry is %s, expected the period", got)
+				}
+			}
 		}
-		for _, ret := range core.Returns(f) {
-			got := a.Norm(core.Result(ret, 0))
-			fromAlign := core.ReachableFromEdges(holds, core.Is(ret), nil) != nil
-			fromPlain := core.ReachableFromEdges(fails, core.Is(ret), nil) != nil
-			if fromAlign && !got.Equal(aligned) {
-				o.Fail(p.InstrPos(ret), "with align the expiry is %s, expected P - mod(U+Z, P) (P = period, U = now.Unix(), Z = zone offset): windows would not end on period boundaries", got)
-			}
-			if fromPlain && !got.Equal(plain) {
-				o.Fail(p.InstrPos(ret), "without align the expiry is %s, expected the period", got)
-			}
+		if nAligned == 0 || nPlain == 0 {
+			o.Fail(p.Pos(takeEval.Pos()), "the expiry does not distinguish align (%d paths) from non-align (%d paths)", nAligned, nPlain)
 		}
 	})
 
 	// ---------------- D2 / D3: the scripts themselves (K12) ----------------
 	r.Check("D2/K12/period-script", "periodScript: the counter is redis.call(\"INCRBY\", KEYS[1], 1); expire(KEYS[1], window) runs only when the counter == 1 and does run then; the reply is 1 iff counter < limit, 2 iff counter == limit, else 0; limit and window are tonumber(ARGV[i]) of two different positions", func(o *core.O) {
-		sc, ok := p.Pkg(c08pkg).Members["periodScript"].(*ssa.NamedConst)
-		if !o.Need(ok, "limit.periodScript") {
+		if !o.Need(takeEval != nil, "the function evaluating a script on a store field of PeriodLimit") {
 			return
 		}
-		roles, msg := c08periodRoles(constant.StringVal(sc.Value.Value))
+		es, emsg := c08eval(takeEval, newC12fn(takeEval))
+		if es == nil {
+			o.Unres("%s: %s", core.FuncName(takeEval), emsg)
+			return
+		}
+		roles, msg := c08periodRoles(es.script)
 		o.Site(1)
 		if roles == nil {
 			if strings.HasPrefix(msg, "UNSUPPORTED") {
@@ -419,16 +646,15 @@ func c08(r *core.Run) {
 			c, ok := v.(*ssa.Const)
 			return ok && c.Value != nil && c.Value.String() == "false"
 		})
-		var cut []core.Edge
-		for _, a := range benign {
-			h, _ := core.EdgesOf(f, a)
-			cut = append(cut, h...)
-		}
+		cut := c08holdsAny(f, benign...)
 		o.Site(len(cut))
 		if wv, found := core.Reach(core.Q{From: []core.At{core.After(ev)}, Target: isFalse, Cut: core.CutSet(cut)}); found {
 			o.Fail(p.InstrPos(wv), "a request is refused (false) after a Redis failure that is neither redis.Nil nor a context error: the limiter stops admitting instead of falling back")
 		}
-		isStart := core.CallTo("(*" + c08pkg + ".TokenLimiter).startMonitor")
+		isStart := func(in ssa.Instruction) bool {
+			c := core.AsCall(in)
+			return c != nil && startMon != nil && c.Common().StaticCallee() == startMon
+		}
 		_, hErr := core.EdgesOf(f, errNil)
 		o.Site(len(hErr))
 		if len(hErr) == 0 {
@@ -487,9 +713,30 @@ func c08(r *core.Run) {
 		}
 		f := startMon
 		r.Fn(core.FuncName(f))
+		// the monitor goroutine, by role: the spawned function (or closure) that sets redisAlive back to 1, directly or one call deep
 		isGo := func(in ssa.Instruction) bool {
 			g, ok := in.(*ssa.Go)
-			return ok && strings.HasSuffix(core.CalleeName(g), "TokenLimiter).waitForRedis")
+			if !ok {
+				return false
+			}
+			t := g.Call.StaticCallee()
+			if mc, isMC := g.Call.Value.(*ssa.MakeClosure); isMC {
+				t = mc.Fn.(*ssa.Function)
+			}
+			if t == nil {
+				return false
+			}
+			for _, h := range core.WithAnon(t) {
+				if monitorFns[h] {
+					return true
+				}
+				for _, c := range core.Calls(h, func(x ssa.Instruction) bool { return core.AsCall(x) != nil }) {
+					if sc := c.Common().StaticCallee(); sc != nil && monitorFns[sc] {
+						return true
+					}
+				}
+			}
+			return false
 		}
 		gos := core.Instrs(f, isGo)
 		zero := core.Instrs(f, storeAlive(0))
